@@ -43,4 +43,7 @@ def run(tier):
             ck.sample(dict(family=fc.family, permutation=fc.perm, input=fc.inputs["i"], conversion=e["conv"], source=e["src"], got=e["got"]))
     ck.extra["programs"] = n
     ck.extra["rustc_rejected_programs"] = len(rejected)
+    if tier == "thorough":
+        from vlib import cov
+        cov.report(ck, "C03", cov.derive_inputs([x for sc in specs.values() for x in sc.inputs.values()]))
     return ck.finish()
